@@ -57,10 +57,10 @@
 EXTENDS Geometry, TLC, Json
 
 CONSTANTS UNIVERSE,   \* "quick" | "thorough": size of the enumerated universe
-          EMIT,       \* TRUE: behaviour generation (print every document) instead of model checking
-          DEFECTS     \* which half of the machine runs after the construction:
-                      \*   FALSE (C04): Load, Save, Reload, Resave      -- with EMIT: print the documents
-                      \*   TRUE  (C05): Load, Defect (every injection)  -- with EMIT: print documents and injections
+          EMIT,       \* TRUE: behaviour generation (print every document of the universe) instead of model checking
+          DEFECTS     \* which half of the machine runs after the construction (model checking):
+                      \*   FALSE (C04): Load, Save, Reload, Resave
+                      \*   TRUE  (C05): Load, Defect (every injection of every document)
 
 VARIABLES phase,      \* "build" | "loaded" | "saved" | "reloaded" | "resaved" | "defect" | "emitted"
           lvl,        \* which sub-universe this behaviour builds ("wide" | "deep")
@@ -631,10 +631,9 @@ Resave == /\ phase = "reloaded" /\ phase' = "resaved" /\ y2' = Write(n2) /\ UNCH
 Defect == /\ DEFECTS /\ Complete /\ ~EMIT /\ phase' = "defect"
           /\ \E p \in Inject(doc) : inj' = p /\ doc' = ApplyPatch(doc, p)
           /\ UNCHANGED <<lvl, n, y, n2, y2>>
-\* behaviour generation
+\* behaviour generation: the documents; their injections are printed by FpefTrace!InjectSpec (same Inject)
 Emit == /\ Complete /\ EMIT /\ phase' = "emitted" /\ UNCHANGED <<lvl, doc, n, y, n2, y2, inj>>
-        /\ PrintT(ToJson([lvl |-> lvl, doc |-> doc,
-                          patches |-> IF DEFECTS THEN SetToSeq(Inject(doc)) ELSE <<>>]))
+        /\ PrintT(ToJson([lvl |-> lvl, doc |-> doc]))
 
 Next == AddModule \/ AddNet \/ Load \/ Save \/ Reload \/ Resave \/ Defect \/ Emit
 Spec == Init /\ [][Next]_vars
